@@ -2,7 +2,7 @@
    store  : parents of commit 0;parents of commit 1;...   (each a comma separated list, "-" when empty store)
    refs   : n:c,n:c   ("-" when empty)
    merge <store> <head> <srcs comma>            -> U | F <c> | M <p,p,...>
-   pushall <store> <remote> <local> <prune 0/1> -> REJECT | R <refs sorted by name id>
+   pushall <store> <remote> <local> <deleted names comma or -> -> REJECT | R <refs sorted by name id>
    pushnames <store> <remote> <local> <names>   -> R <refs sorted>
    miops <sg letters O/R/C/K or -> <pairs t:w,t:w> -> ops  d:s+s;d:s
    incl <store> <refs> <pairs a:b,...>          -> 1 | 0
@@ -20,13 +20,13 @@ let show_refs r =
 let nats s = List.map (fun x -> nat_of_int (int_of_string x)) (split ',' s)
 let show_nats l = String.concat "," (List.map (fun x -> string_of_int (int_of_nat x)) l)
 let strat = function 'O' -> Octopus | 'R' -> OctopusRev | 'C' -> Consecutive | 'K' -> ConsecutiveRev | _ -> failwith "strategy"
-let () = iter_lines (fun l ->
+let flow_handle (l : String.t) : String.t =
   try match words l with
   | ["merge"; st; h; srcs] ->
     (match git_merge (parse_store st) (nat_of_int (int_of_string h)) (nats srcs) with
      | UpToDate -> "U" | FastForward c -> "F " ^ string_of_int (int_of_nat c) | Merged ps -> "M " ^ show_nats ps)
-  | ["pushall"; st; remote; local; prune] ->
-    (match push_all_atomic (parse_store st) (parse_refs remote) (parse_refs local) (prune = "1") with
+  | ["pushall"; st; remote; local; deleted] ->
+    (match push_all_atomic (parse_store st) (parse_refs remote) (parse_refs local) (nats deleted) with
      | None -> "REJECT" | Some r -> "R " ^ show_refs r)
   | ["pushnames"; st; remote; local; names] ->
     "R " ^ show_refs (push_names (parse_store st) (parse_refs remote) (parse_refs local) (nats names))
@@ -39,4 +39,4 @@ let () = iter_lines (fun l ->
     word_of_bool (incl_b { st = parse_store st; refs = parse_refs refs } (parse_refs pairs))
   | ["anc"; st; a; b] -> word_of_bool (anc (parse_store st) (nat_of_int (int_of_string a)) (nat_of_int (int_of_string b)))
   | _ -> "ERR bad request"
-  with e -> "ERR " ^ Printexc.to_string e)
+  with e -> "ERR " ^ Printexc.to_string e
